@@ -34,7 +34,7 @@ from .errors import (
     MemoryLimitError,
     TimeLimitError,
 )
-from .regex import RegexTimeoutError
+from .regex import RegexTimeoutError, RegExpError, RegexStackOverflow
 
 
 def js_round(x: float, ndigits: int = 0) -> float:
@@ -64,6 +64,40 @@ def js_remainder(a: Union[int, float], b: Union[int, float]) -> Union[int, float
             return -r if r else -0.0
         return r
     return math.fmod(a, b)
+
+
+class _PendingThrow(Exception):
+    """A script exception on its way to a handler below a native (host) frame."""
+
+    def __init__(self, value: JSValue):
+        super().__init__("pending script exception")
+        self.value = value
+
+
+_JUMP_OPCODES = frozenset(
+    (OpCode.JUMP, OpCode.JUMP_IF_FALSE, OpCode.JUMP_IF_TRUE, OpCode.TRY_START)
+)
+_OPERAND_OPCODES = frozenset(
+    (
+        OpCode.LOAD_CONST,
+        OpCode.LOAD_NAME,
+        OpCode.STORE_NAME,
+        OpCode.LOAD_LOCAL,
+        OpCode.STORE_LOCAL,
+        OpCode.LOAD_CLOSURE,
+        OpCode.STORE_CLOSURE,
+        OpCode.LOAD_CELL,
+        OpCode.STORE_CELL,
+        OpCode.CALL,
+        OpCode.CALL_METHOD,
+        OpCode.NEW,
+        OpCode.BUILD_ARRAY,
+        OpCode.BUILD_OBJECT,
+        OpCode.BUILD_REGEX,
+        OpCode.MAKE_CLOSURE,
+        OpCode.TYPEOF_NAME,
+    )
+)
 
 
 @dataclass
@@ -147,6 +181,8 @@ class VM:
         self.exception: Optional[JSValue] = None
         # (frame_idx, catch_ip, operand stack height at TRY_START)
         self.exception_handlers: List[Tuple[int, int, int]] = []
+        # call stack depths at which native code re-entered the interpreter
+        self._native_boundaries: List[int] = []
 
     def run(self, compiled: CompiledFunction) -> JSValue:
         """Run compiled bytecode and return result."""
@@ -199,59 +235,53 @@ class VM:
                 # End of function
                 return self.stack.pop() if self.stack else UNDEFINED
 
-            op = OpCode(bytecode[frame.ip])
-            frame.ip += 1
-
-            # Get argument if needed
-            arg = None
-            if op in (
-                OpCode.JUMP,
-                OpCode.JUMP_IF_FALSE,
-                OpCode.JUMP_IF_TRUE,
-                OpCode.TRY_START,
-            ):
-                # 16-bit little-endian argument for jumps
-                low = bytecode[frame.ip]
-                high = bytecode[frame.ip + 1]
-                arg = low | (high << 8)
-                frame.ip += 2
-            elif op in (
-                OpCode.LOAD_CONST,
-                OpCode.LOAD_NAME,
-                OpCode.STORE_NAME,
-                OpCode.LOAD_LOCAL,
-                OpCode.STORE_LOCAL,
-                OpCode.LOAD_CLOSURE,
-                OpCode.STORE_CLOSURE,
-                OpCode.LOAD_CELL,
-                OpCode.STORE_CELL,
-                OpCode.CALL,
-                OpCode.CALL_METHOD,
-                OpCode.NEW,
-                OpCode.BUILD_ARRAY,
-                OpCode.BUILD_OBJECT,
-                OpCode.BUILD_REGEX,
-                OpCode.MAKE_CLOSURE,
-                OpCode.TYPEOF_NAME,
-            ):
-                arg = bytecode[frame.ip]
-                frame.ip += 1
-
-            # Execute opcode - wrap in try/except to catch Python JS exceptions
-            try:
-                self._execute_opcode(op, arg, frame)
-            except JSTypeError as e:
-                # Convert Python JSTypeError to JavaScript TypeError
-                self._handle_python_exception("TypeError", str(e))
-            except JSReferenceError as e:
-                # Convert Python JSReferenceError to JavaScript ReferenceError
-                self._handle_python_exception("ReferenceError", str(e))
+            op, arg = self._fetch(frame)
+            self._run_opcode(op, arg, frame)
 
             # Check if frame was popped (return)
             if not self.call_stack:
                 break
 
         return self.stack.pop() if self.stack else UNDEFINED
+
+    def _fetch(self, frame: CallFrame) -> Tuple[OpCode, Optional[int]]:
+        """Decode the instruction at frame.ip and advance past it."""
+        bytecode = frame.func.bytecode
+        op = OpCode(bytecode[frame.ip])
+        frame.ip += 1
+
+        arg = None
+        if op in _JUMP_OPCODES:
+            # 16-bit little-endian argument for jumps
+            low = bytecode[frame.ip]
+            high = bytecode[frame.ip + 1]
+            arg = low | (high << 8)
+            frame.ip += 2
+        elif op in _OPERAND_OPCODES:
+            arg = bytecode[frame.ip]
+            frame.ip += 1
+        return op, arg
+
+    def _run_opcode(self, op: OpCode, arg: Optional[int], frame: CallFrame) -> None:
+        """Execute one opcode; errors raised by native code become script exceptions."""
+        try:
+            self._execute_opcode(op, arg, frame)
+        except (TimeLimitError, MemoryLimitError):
+            raise  # limits are never catchable by the script
+        except _PendingThrow as e:
+            # A script exception that crossed a native frame: deliver it here
+            self._throw(e.value)
+        except JSError as e:
+            # TypeError, ReferenceError, RangeError, SyntaxError ... from native code
+            self._handle_python_exception(e.name, e.message)
+        except RegExpError as e:
+            self._handle_python_exception(
+                "SyntaxError", f"Invalid regular expression: {e}"
+            )
+        except RegexStackOverflow:
+            self._handle_python_exception(
+                "RangeError", "Regular expression too complex"
+            )
 
     def _execute_opcode(self, op: OpCode, arg: Optional[int], frame: CallFrame) -> None:
         """Execute a single opcode."""
@@ -2330,65 +2360,36 @@ class VM:
             )
 
             # Execute until the call returns (back to original call stack depth)
-            while len(self.call_stack) > call_stack_len:
-                self._check_limits()
-                frame = self.call_stack[-1]
-                func = frame.func
-                bytecode = func.bytecode
-
-                if frame.ip >= len(bytecode):
-                    self.call_stack.pop()
-                    if len(self.stack) > stack_len:
-                        return self.stack.pop()
-                    return UNDEFINED
-
-                op = OpCode(bytecode[frame.ip])
-                frame.ip += 1
-
-                # Get argument if needed
-                arg = None
-                if op in (
-                    OpCode.JUMP,
-                    OpCode.JUMP_IF_FALSE,
-                    OpCode.JUMP_IF_TRUE,
-                    OpCode.TRY_START,
-                ):
-                    low = bytecode[frame.ip]
-                    high = bytecode[frame.ip + 1]
-                    arg = low | (high << 8)
-                    frame.ip += 2
-                elif op in (
-                    OpCode.LOAD_CONST,
-                    OpCode.LOAD_NAME,
-                    OpCode.STORE_NAME,
-                    OpCode.LOAD_LOCAL,
-                    OpCode.STORE_LOCAL,
-                    OpCode.LOAD_CLOSURE,
-                    OpCode.STORE_CLOSURE,
-                    OpCode.LOAD_CELL,
-                    OpCode.STORE_CELL,
-                    OpCode.CALL,
-                    OpCode.CALL_METHOD,
-                    OpCode.NEW,
-                    OpCode.BUILD_ARRAY,
-                    OpCode.BUILD_OBJECT,
-                    OpCode.BUILD_REGEX,
-                    OpCode.MAKE_CLOSURE,
-                ):
-                    arg = bytecode[frame.ip]
-                    frame.ip += 1
-
-                self._execute_opcode(op, arg, frame)
-
-            # Get result from stack
-            if len(self.stack) > stack_len:
-                return self.stack.pop()
-            return UNDEFINED
+            self._native_boundaries.append(call_stack_len)
+            try:
+                return self._run_callback_frames(stack_len, call_stack_len)
+            finally:
+                self._native_boundaries.pop()
         elif callable(callback):
             result = callback(*args)
             return result if result is not None else UNDEFINED
         else:
             raise JSTypeError(f"{callback} is not a function")
+
+    def _run_callback_frames(self, stack_len: int, call_stack_len: int) -> JSValue:
+        """Run the frames pushed by _call_callback until they have returned."""
+        while len(self.call_stack) > call_stack_len:
+            self._check_limits()
+            frame = self.call_stack[-1]
+
+            if frame.ip >= len(frame.func.bytecode):
+                self.call_stack.pop()
+                if len(self.stack) > stack_len:
+                    return self.stack.pop()
+                return UNDEFINED
+
+            op, arg = self._fetch(frame)
+            self._run_opcode(op, arg, frame)
+
+        # Get result from stack
+        if len(self.stack) > stack_len:
+            return self.stack.pop()
+        return UNDEFINED
 
     def _invoke_js_function(
         self,
@@ -2510,6 +2511,15 @@ class VM:
                 exc.set("lineNumber", line)
             if column is not None:
                 exc.set("columnNumber", column)
+
+        if (
+            self._native_boundaries
+            and self.exception_handlers
+            and self.exception_handlers[-1][0] < self._native_boundaries[-1]
+        ):
+            # The nearest handler belongs to a frame below native code (a built-in
+            # running a callback): let the host frames unwind first
+            raise _PendingThrow(exc)
 
         if self.exception_handlers:
             frame_idx, catch_ip, stack_height = self.exception_handlers.pop()
